@@ -829,6 +829,10 @@ class Manager:
                     if value is not None:
                         value_generator = (val for val in (value,))
                         self.registerTask((event, value_generator, parent))
+                    else:
+                        # the caller handled the exception and goes on
+                        event.waitingHandlers -= 1
+                        self.registerTask((event, parent, None))
                 else:
                     raise value.extract()
             elif isinstance(value, Sleep):
@@ -868,6 +872,12 @@ class Manager:
                 self.fire(event.child('failure', event, err), *event.channels)
 
             self.fire(exception(*err, handler=None, fevent=event))
+
+            # the failed generator, and a caller that failed when it was
+            # resumed by it, do not wait any longer
+            event.waitingHandlers -= 2 if parent else 1
+            if event.waitingHandlers == 0:
+                self._eventDone(event, err)
 
     def tick(self, timeout=-1):
         """
